@@ -17,6 +17,8 @@ def table(rng, maxrows=12):
         if rng.random() < .15 and rows:
             path = rng.choice(rows)[0]
         pk = [(rng.choice(QUALS), rng.choice(PNAMES)) for _ in range(rng.randint(1, 6) if rng.random() < .4 else 1)]
+        if rows and rng.random() < .3:
+            pk = list(rng.choice(rows)[1])      # the same packages column as an earlier row, character for character
         rows.append((path, pk))
     return rows
 
